@@ -390,12 +390,15 @@ def codeL : Op → List (Cmd LState Regs)
   | .get k =>
     [ .loc id, .acquire,
       .acc (fun r s => ({ r with node := findNode s.ring k }, { s with tick := s.tick + 1 })),   -- node = self.data.get(key)
-      .acc (fun r s => match r.node with                                                         -- miss, or node.unlink()
+      .acc (fun r s => match r.node with                                                         -- miss
         | none => ({ r with out := .none }, { s with misses := s.misses + 1 })
-        | some _ => (r, { s with ring := removeKey s.ring k })),
-      .acc (fun r s => match r.node with                                                         -- expiry test
+        | some _ => (r, s)),
+      .acc (fun r s => match r.node with                                                         -- expiry test, before the list is touched
         | none => (r, s)
         | some n => ({ r with flag := decide (n.ans.exp ≤ s.now) }, s)),
+      .acc (fun r s => match r.node with                                                         -- node.unlink() (both branches)
+        | none => (r, s)
+        | some _ => (r, { s with ring := removeKey s.ring k })),
       .acc (fun r s => match r.node with                                                         -- del data[key] / link_after
         | none => (r, s)
         | some n => if r.flag then (r, s)
